@@ -148,6 +148,9 @@ pub fn run_stack(
                 Ok(g) => g.into_owned(),
                 Err(_) => return Ok(None),
             };
+            if prefix_dot_components(&g) > 0 {
+                return Ok(None);
+            }
             apply0(g.walk_with_behavior(base_given.to_path_buf(), behavior), layers, &ctx, 0)?
         },
     };
@@ -194,17 +197,31 @@ pub fn negation_alternatives(e: &Expr) -> Vec<Expr> {
     vec![e.clone()]
 }
 
+/// The shapes the documentation of `not` itself uses for "exhaustive" (`secret/**`,
+/// `**/private/**`): literal components, optionally after a leading tree wildcard, closed by a
+/// trailing tree wildcard.  For these the verdict does not rest on wax's own `is_exhaustive`.
+pub fn canonical_exhaustive(e: &Expr) -> bool {
+    let toks: Vec<&Tok> = e.iter().filter(|t| !t.is_flag()).collect();
+    if toks.len() < 2 || !matches!(toks[toks.len() - 1], Tok::Tree { lead: true, trail: false }) {
+        return false;
+    }
+    toks[..toks.len() - 1].iter().enumerate().all(|(i, t)| match t {
+        Tok::Lit { .. } | Tok::Sep => true,
+        Tok::Tree { lead: false, .. } => i == 0,
+        _ => false,
+    }) && toks[..toks.len() - 1].iter().any(|t| matches!(t, Tok::Lit { .. }))
+}
+
 fn exhaustive_alternatives(exprs: &[Expr]) -> Vec<Glob<'static>> {
     let mut out = Vec::new();
     for e in exprs {
         let alts = negation_alternatives(e);
-        if alts.len() < 2 {
-            // the pattern itself: wax's own partition decides (hook)
-            continue;
-        }
+        let whole = alts.len() < 2;
         for a in alts {
             if let Ok(g) = Glob::new(&render_text(&a)) {
-                if g.is_exhaustive().is_always() {
+                // a pattern that is one alternative: wax's own partition decides (hook), except
+                // for the canonical shapes
+                if canonical_exhaustive(&a) || (!whole && g.is_exhaustive().is_always()) {
                     out.push(g.into_owned());
                 }
             }
@@ -213,7 +230,9 @@ fn exhaustive_alternatives(exprs: &[Expr]) -> Vec<Glob<'static>> {
     out
 }
 
-pub fn prepare_layers(layers: &[Layer]) -> Result<Vec<LayerRt>, BuildError> {
+/// `strict`: also demand tree discards from the harness's own reading of "an exhaustive negation"
+/// (C13); otherwise wax's own partition alone decides (C16, C20: they are about other things)
+pub fn prepare_layers(layers: &[Layer], strict: bool) -> Result<Vec<LayerRt>, BuildError> {
     let mut out = Vec::new();
     for l in layers.iter().take(MAX_LAYERS) {
         match l {
@@ -224,18 +243,21 @@ pub fn prepare_layers(layers: &[Layer]) -> Result<Vec<LayerRt>, BuildError> {
                     layer: l.clone(),
                     exhaustive: ex.and_then(|p| regex::Regex::new(&p).ok()),
                     nonexhaustive: ne.and_then(|p| regex::Regex::new(&p).ok()),
-                    exhaustive_alternatives: exhaustive_alternatives(std::slice::from_ref(e)),
+                    exhaustive_alternatives: if strict { exhaustive_alternatives(std::slice::from_ref(e)) } else { Vec::new() },
                 });
             },
             Layer::NotAny(es) => {
                 let texts: Vec<String> = es.iter().map(render_text).collect();
                 let (ex, ne) = wax::walk::verif_negation_patterns(wax::any(texts.iter().map(|s| s.as_str())))?;
-                let mut alts = exhaustive_alternatives(es);
-                // the members themselves are alternatives too
-                for t in &texts {
-                    if let Ok(g) = Glob::new(t) {
-                        if g.is_exhaustive().is_always() {
-                            alts.push(g.into_owned());
+                let mut alts = Vec::new();
+                if strict {
+                    alts = exhaustive_alternatives(es);
+                    // the members themselves are alternatives too
+                    for (e, t) in es.iter().zip(texts.iter()) {
+                        if let Ok(g) = Glob::new(t) {
+                            if g.is_exhaustive().is_always() || canonical_exhaustive(e) {
+                                alts.push(g.into_owned());
+                            }
                         }
                     }
                 }
@@ -324,6 +346,10 @@ pub fn prepare_glob(under: &Under) -> Option<Option<GlobRt>> {
                 return None;
             }
             let g = Glob::new(&render_text(&expr)).ok()?.into_owned();
+            if prefix_dot_components(&g) > 0 {
+                // `.` / `..` in the prefix (also spelled `[.]`): C02's business
+                return None;
+            }
             let programs = g.verif_walk_component_patterns().iter().filter_map(|p| regex::Regex::new(p).ok()).collect();
             let (pre, _) = g.clone().partition();
             let prefix = pre.to_string_lossy().trim_end_matches('/').to_string();
@@ -421,8 +447,7 @@ pub fn observe(entries: &[(String, bool)], glob: &GlobRt, fed: BTreeSet<String>,
     }
     // "because a glob's component cannot match it": a fed directory whose own name is rejected by
     // the plain component at its position must be discarded as a tree — nothing beneath it is fed
-    // (enforced by C13 and by C20 — a fault beneath such a directory is not one the walk meets;
-    // C16 takes the pruning as observed)
+    // (enforced by C13 only: it is a clause of C13; C16 and C20 take the pruning as observed)
     for (rel, is_dir) in entries {
         if enforce_component_discard && *is_dir && fed.contains(rel) {
             if let Some(j) = component_cannot_match(glob, rel) {
